@@ -247,8 +247,8 @@ class World:
         return "?"
 
     # ------------------------------------------------------------------ running
-    def run(self, qual: str, cmd_fields: dict, max_states: int = 6000, build=None):
-        I = Interp(self.model, probes=self.probes(), max_states=max_states)
+    def run(self, qual: str, cmd_fields: dict, max_states: int = 6000, build=None, probes=None):
+        I = Interp(self.model, probes={**self.probes(), **(probes or {})}, max_states=max_states)
         st = State()
         fields = dict(zettel_dir=vpath(self.zdir), verbose=0, **cmd_fields)
         if build is not None:
